@@ -19,7 +19,7 @@ REAL_PREFIXES = ('_ZNSt6vector', '_ZNKSt6vector', '_ZSt3max', '_ZSt3min', '_ZN9_
                  '_ZNKSt15__new_allocator', '_ZNSaI', '_ZSt7forward', '_ZSt4move', '_ZSt8_Destroy', '_ZSt12__relocate_a', '_ZSt14__relocate_a_1', '_ZSt12__niter_base', '_ZNSt12_Destroy_aux', '_ZSt11__addressof',
                  '_ZSt9addressof', '_ZN4vfps18upper_power_of_two', '_ZSt10_Construct', '_ZSt34__uninitialized_move_if_noexcept_a', '_ZSt32__make_move_if_noexcept_iterator', '_ZSt22__uninitialized_copy_a',
                  '_ZSt18uninitialized_copy', '_ZNSt20__uninitialized_copy', '_ZSt4copy', '_ZSt14__copy_move_a', '_ZSt13__copy_move_a', '_ZSt12__miter_base', '_ZNSt11__copy_move', '_ZSt12__niter_wrap',
-                 '_ZNSt13move_iterator', '_ZNKSt13move_iterator', '_ZSteq', '_ZStne', '_ZSt19__relocate_object_a', '_ZNSt19__is_bitwise_relocatable', '_ZNSt6vectorI', '_ZSt15__alloc_on_copy')
+                 '_ZNSt13move_iterator', '_ZNKSt13move_iterator', '_ZSteq', '_ZStne', '_ZNKSt16initializer_list', '_ZNSt16initializer_list', '_ZSt8distance', '_ZSt10__distance', '_ZSt19__iterator_category', '_ZNSt6vectorIfSaIfEE19_M_range_initialize', '_ZSt19__relocate_object_a', '_ZNSt19__is_bitwise_relocatable', '_ZNSt6vectorI', '_ZSt15__alloc_on_copy')
 
 def setup_build(): return B.build(None, ['src/main.cpp', 'src/HelperFunctions.cpp'], hdf5=1, noinline_tus=['src/main.cpp'], link=False)
 SETUP_MODS = ['main', 'HelperFunctions']
@@ -130,7 +130,7 @@ class SetupExec(UCExec):
 class Reached(Exception): pass
 class OffRoute(Exception): pass
 
-def explore_setup(mod, n, nb, tracked, prefer, max_paths=600, budget=240, via=None):
+def explore_setup(mod, n, nb, tracked, prefer, max_paths=600, budget=240, via=None, stop_frag=None, capture=(), tracked_frags=()):
     """all paths (w.r.t. tracked decisions) from the filling-pattern fetch to the last ElectricField construction; returns (paths, info)"""
     f = mod.funcs['main']; ex = SetupExec(mod, 0); ex.hdr = None; ex.scc = set(); ex.round_toint = True; ex.track_uninit = True; ex.dom.div0_fresh = True
     dm = demangle(set(mod.decls) | set(mod.funcs))
@@ -138,7 +138,9 @@ def explore_setup(mod, n, nb, tracked, prefer, max_paths=600, budget=240, via=No
     ggs = [g for g in ggs if f.order.index(g[0]) < f.order.index(gbc[0][0])] if gbc else ggs
     if len(gbc) != 1 or len(ggs) != 1 or not efc: raise Unsupported('expected one getBunchCurrents and one getGridSize call and at least one ElectricField construction in main (found %d, %d, %d)' % (len(gbc), len(ggs), len(efc)))
     start = gbc[0][0]; grid_reg = ggs[0][2]['dst']; last_ef = efc[-1]
-    succ = cfg_of(f); reach = can_reach(succ, [last_ef[0]]); reach_via = can_reach(succ, [via]) if via else None; ex.via = via
+    stop_sites = call_sites(mod, f, stop_frag) if stop_frag else []
+    if stop_frag and not stop_sites: raise Unsupported('no call of %s in main' % stop_frag)
+    succ = cfg_of(f); reach = can_reach(succ, [stop_sites[-1][0]] if stop_frag else [last_ef[0]]); reach_via = can_reach(succ, [via]) if via else None; ex.via = via
     real = set()
     for d in mod.decls:
         if d.startswith('llvm.') or d in LIBM or d in ('_Znwm', '_Znam', '_ZdlPv', '_ZdaPv', '__cxa_allocate_exception', '__cxa_throw', '__cxa_begin_catch', '__cxa_end_catch', '__cxa_rethrow', '__cxa_free_exception', 'memcpy', 'memmove', 'memset'): continue
@@ -208,15 +210,40 @@ def explore_setup(mod, n, nb, tracked, prefer, max_paths=600, budget=240, via=No
                 except Exception: pass
         st.events.append((ins['callee'][1], list(args), None, rec))
         st.extra['n_ef'] = st.extra.get('n_ef', 0) + 1
-        if st.extra['n_ef'] >= len(efc): raise Reached()
+        if st.extra['n_ef'] >= len(efc) and not stop_frag: raise Reached()
         return None
     for nm in ef_names: ex.ext[nm] = ef_ctor
+    # slice extended beyond the fields (map parameters): numeric constants of boost::math run from their own IR; calls to be captured record what their pointer operands point to
+    def deref(st, a):
+        if not isinstance(a, int) or a < EXEC_HEAP: return None
+        out = {}
+        for ty_, nm_ in ((FloatTy(32), 'f32'), (FloatTy(64), 'f64'), (IntTy(64), 'p0'), (IntTy(32), 'i32')):
+            try: out[nm_] = ex.load(st, a, ty_)
+            except Exception: pass
+        try:
+            b0 = ex.load(st, a, IntTy(64)); b1 = ex.load(st, a + 8, IntTy(64))
+            if isinstance(b0, int) and isinstance(b1, int) and b0 >= EXEC_HEAP and 0 < b1 - b0 <= 64 and (b1 - b0) % 4 == 0: out['vec_f32'] = [ex.load(st, b0 + 4 * i, FloatTy(32)) for i in range((b1 - b0) // 4)]
+        except Exception: pass
+        return out
+    def capturing(name, stop):
+        def h(ex_, st, fr, args, ins):
+            st.events.append((name, list(args), None, {'deref': [deref(st, a) for a in args]}))
+            if stop: raise Reached()
+            return None if isinstance(ins['ty'], VoidTy) else ex.fresh(st, ins['ty'], 'ret_cap')
+        return h
+    if stop_frag or capture:
+        for d in list(mod.decls) + list(mod.funcs):
+            dn = dm.get(d, d)
+            if d.startswith('_ZN5boost4math9constants') and d in mod.funcs: ex.ext[d] = (lambda ex_, st, fr, args, ins: CALL_REAL)
+            elif stop_frag and stop_frag in dn and d != 'main': ex.ext[d] = capturing(d, True)
+            elif any(c_ in dn for c_ in capture) and d != 'main': ex.ext[d] = capturing(d, False)
     # decisions
     stats = {'tracked_forks': 0, 'guided': 0}
     def guide(st, cb, tb, fb):
         fr = st.frames[-1]
         if fr.fn.name != 'main': return None
-        if syms_of(cb) & tracked: stats['tracked_forks'] += 1; return None
+        sy_ = syms_of(cb)
+        if sy_ & tracked or (tracked_frags and any(fr_ in x_ for x_ in sy_ for fr_ in tracked_frags)): stats['tracked_forks'] += 1; return None
         stats['guided'] += 1
         rs = reach_via if (via and not st.extra.get('via_done')) else reach
         rt, rf = tb in rs, fb in rs
